@@ -506,6 +506,12 @@ Proof.
   intros HG Hb. unfold step_headers.
   assert (H0 : 0 <= c_inflow c) by (destruct HG as [_ [H0 _]]; exact H0).
   assert (Hisw : 0 < c_isw c <= 1000000) by (destruct HG as [_ [_ [_ [_ X]]]]; exact X).
+  destruct (id =? 0).
+  { intros H. inversion H; subst. apply post_dead; [exact Hb|reflexivity]. }
+  destruct (kind =? 7).
+  { intros H. destruct (do_reset_good _ _ _ _ _ _ HG Hb H) as [G [B [I [W [D Ev]]]]].
+    split; [exact B|]. intros _. split; [exact G|]. split; [exact W|]. intros _.
+    subst evs. simpl. unfold wu_of; simpl. lia. }
   destruct (negb (id mod 2 =? 1)) eqn:Eodd.
   { intros H. inversion H; subst. apply post_dead; [exact Hb|reflexivity]. }
   assert (Hid0 : id <> 0).
@@ -542,7 +548,7 @@ Proof.
     match goal with |- context [closeconn ?x] => set (c1 := x) end.
     destruct (c_adv c <? c_cur c1).
     { intros H. inversion H; subst. apply post_dead; [exact Hb|reflexivity]. }
-    destruct ((kind =? 1) || (kind =? 2) && negb es).
+    destruct (malformed kind es).
     + unfold do_reset, find_live, close_stream, c1.
       destruct es; cbn; rewrite ?Z.eqb_refl; cbn; rewrite ?Z.eqb_refl; cbn;
         (intros H; inversion H; subst c' evs; clear H;
@@ -561,6 +567,68 @@ Proof.
       split; [reflexivity|]. intros _. simpl. unfold wu_of; simpl. lia.
 Qed.
 
+
+(* ---------- handler return racing with a client frame (startFrameWrite / client frame / wroteFrame) ---------- *)
+Lemma race_inner_good c1 id ik c2 :
+  Good c1 -> race_inner c1 id ik = Some c2 ->
+  Good c2 /\ c_inflow c2 = c_inflow c1 /\ c_isw c2 = c_isw c1 /\ c_bug c2 = c_bug c1 /\ c_dead c2 = c_dead c1 /\
+  (forall s, find_stream id (c_streams c1) = Some s -> exists s2, find_stream id (c_streams c2) = Some s2).
+Proof.
+  intros HG. unfold race_inner. destruct (ik =? 3).
+  2:{ intros H. inversion H; subst. split; [exact HG|]. split; [reflexivity|]. split; [reflexivity|]. split; [reflexivity|]. split; [reflexivity|]. intros s0 Hs0. exists s0. exact Hs0. }
+  destruct (find_live id (c_streams c1)) as [s|] eqn:Ef.
+  2:{ intros H. inversion H; subst. split; [exact HG|]. split; [reflexivity|]. split; [reflexivity|]. split; [reflexivity|]. split; [reflexivity|]. intros s0 Hs0. exists s0. exact Hs0. }
+  apply find_live_some in Ef. destruct Ef as [Ef _].
+  pose proof (find_some _ _ _ Ef) as [_ Hid]. rewrite <- Hid in Ef.
+  intros Hc. destruct (close_good _ _ _ HG Ef Hc) as [G [A [B [C [D _]]]]].
+  split; [exact G|]. split; [exact A|]. split; [exact B|]. split; [exact C|]. split; [exact D|].
+  intros s0 Hs0. unfold close_stream in Hc. destruct (s_state s =? 3); [discriminate|].
+  inversion Hc; subst. simpl. eexists. apply (find_upd _ _ s0); [exact Hs0|reflexivity].
+Qed.
+
+Lemma race_inner_some c1 id ik : exists c2, race_inner c1 id ik = Some c2.
+Proof.
+  unfold race_inner. destruct (ik =? 3); [|eexists; reflexivity].
+  destruct (find_live id (c_streams c1)) as [s|] eqn:Ef; [|eexists; reflexivity].
+  apply find_live_some in Ef. destruct Ef as [_ Hn]. unfold close_stream.
+  destruct (s_state s =? 3) eqn:E; [lia|eexists; reflexivity].
+Qed.
+
+Lemma step_race_post c id ik a b c' evs :
+  Good c -> c_bug c = false -> step_race c id ik = (c', evs) -> Post c (ORace id ik a b) c' evs.
+Proof.
+  intros HG Hb. unfold step_race.
+  destruct (find_stream id (c_streams c)) as [st|] eqn:Ef.
+  2:{ intros H. inversion H; subst. apply post_same; auto. }
+  destruct (negb (s_run st)).
+  { intros H. inversion H; subst. apply post_same; auto. }
+  pose proof (find_some _ _ _ Ef) as [_ Hid]. rewrite <- Hid in Ef.
+  pose proof (Good_st _ _ _ HG Ef) as Hok.
+  assert (H0 : 0 <= c_inflow c) by (destruct HG as [_ [H0 _]]; exact H0).
+  assert (HG1 : Good (upd c (set_run st false))).
+  { unfold upd, set_streams.
+    apply (good_set c st); [exact HG | exact Ef | exact Hok | exact H0 | simpl; lia | simpl; intros; split; [assumption|lia]]. }
+  assert (Ef1 : find_stream id (c_streams (upd c (set_run st false))) = Some (set_run st false)).
+  { simpl. apply (find_upd _ _ st); [rewrite <- Hid; exact Ef|simpl; exact Hid]. }
+  destruct (race_inner_some (upd c (set_run st false)) id ik) as [c2 E2]. rewrite E2.
+  destruct (race_inner_good _ _ _ _ HG1 E2) as [G2 [I2 [W2 [B2 [D2 F2]]]]].
+  destruct (F2 _ Ef1) as [st2 Ef2]. simpl in I2, W2, B2, D2.
+  assert (Hfin : forall cc e, Good cc -> c_inflow cc = c_inflow c -> c_isw cc = c_isw c -> c_bug cc = false ->
+                 wu_of e 0 = 0 -> Post c (ORace id ik a b) cc e).
+  { intros cc e G I W B Hw. split; [exact B|]. intros _. split; [exact G|]. split; [exact W|].
+    intros _. simpl. rewrite I, Hw. lia. }
+  destruct (s_state st =? 3).
+  { intros H. inversion H; subst. apply Hfin; try assumption; try congruence. reflexivity. }
+  rewrite Ef2. destruct (s_state st2 =? 3) eqn:E3.
+  { intros H. inversion H; subst. apply Hfin; try assumption; try congruence. reflexivity. }
+  pose proof (find_some _ _ _ Ef2) as [_ Hid2]. rewrite <- Hid2 in Ef2.
+  destruct (close_stream c2 st2) as [c3|] eqn:Ec.
+  2:{ unfold close_stream in Ec. rewrite E3 in Ec. discriminate. }
+  destruct (close_good _ _ _ G2 Ef2 Ec) as [G3 [I3 [W3 [B3 [D3 _]]]]].
+  intros H. inversion H; subst. apply Hfin; try assumption; try congruence.
+  destruct (s_state st2 =? 1); reflexivity.
+Qed.
+
 Theorem step_post c o c' evs :
   Good c -> c_bug c = false -> wf_op o = true -> step c o = (c', evs) -> Post c o c' evs.
 Proof.
@@ -575,6 +643,7 @@ Proof.
   - apply step_closebody_post; assumption.
   - apply step_finish_post; assumption.
   - intros H. inversion H; subst. apply post_dead; [exact Hb|reflexivity].
+  - apply step_race_post; assumption.
 Qed.
 
 (* ---------- whole scripts ---------- *)
@@ -750,33 +819,36 @@ Qed.
 
 (* ---------- C35 rules, as coded ---------- *)
 Lemma rule_even_id c id es kind clen :
-  (id mod 2 =? 1) = false -> step_headers c id es kind clen = goaway c 1.
-Proof. intros H. unfold step_headers. rewrite H. reflexivity. Qed.
+  (kind =? 7) = false -> (id mod 2 =? 1) = false -> step_headers c id es kind clen = goaway c 1.
+Proof. intros K H. unfold step_headers. rewrite K, H. destruct (id =? 0); reflexivity. Qed.
+
+Lemma odd_nonzero id : (id mod 2 =? 1) = true -> (id =? 0) = false.
+Proof. intros H. destruct (id =? 0) eqn:E; [|reflexivity]. assert (id = 0) by lia. subst. discriminate. Qed.
 
 Lemma rule_ids_increase c id es kind clen :
-  (id mod 2 =? 1) = true -> find_live id (c_streams c) = None -> id <= c_max c ->
+  (kind =? 7) = false -> (id mod 2 =? 1) = true -> find_live id (c_streams c) = None -> id <= c_max c ->
   step_headers c id es kind clen = goaway c 1.
 Proof.
-  intros H Hf Hm. unfold step_headers. rewrite H, Hf. simpl.
+  intros K H Hf Hm. unfold step_headers. rewrite (odd_nonzero _ H), K, H, Hf. simpl.
   destruct (id <=? c_max c) eqn:E; [reflexivity|lia].
 Qed.
 
 Lemma rule_concurrency_limit c id es kind clen c' evs :
-  (id mod 2 =? 1) = true -> find_live id (c_streams c) = None -> c_max c < id -> c_adv c <= c_cur c ->
+  (kind =? 7) = false -> (id mod 2 =? 1) = true -> find_live id (c_streams c) = None -> c_max c < id -> c_adv c <= c_cur c ->
   step_headers c id es kind clen = (c', evs) -> c_dead c' = true /\ evs = [(5, 0, 0)] /\ c_bug c' = c_bug c.
 Proof.
-  intros H Hf Hm Ha. unfold step_headers. rewrite H, Hf. simpl.
+  intros K H Hf Hm Ha. unfold step_headers. rewrite (odd_nonzero _ H), K, H, Hf. simpl.
   destruct (id <=? c_max c) eqn:E; [lia|].
   destruct (c_adv c <? c_cur c + 1) eqn:E2; [|lia].
   intros HS. inversion HS; subst. repeat split; reflexivity.
 Qed.
 
 Lemma rule_headers_on_half_closed c st es kind clen c' evs :
-  Good c -> c_bug c = false -> (s_id st mod 2 =? 1) = true ->
+  Good c -> c_bug c = false -> (kind =? 7) = false -> (s_id st mod 2 =? 1) = true ->
   find_live (s_id st) (c_streams c) = Some st -> s_state st = 2 ->
   step_headers c (s_id st) es kind clen = (c', evs) -> evs = [(2, s_id st, 5)] /\ c_dead c' = c_dead c.
 Proof.
-  intros HG Hb H Hf Hs. unfold step_headers. rewrite H, Hf. simpl.
+  intros HG Hb K H Hf Hs. unfold step_headers. rewrite (odd_nonzero _ H), K, H, Hf. simpl.
   replace (s_state st =? 2) with true by lia.
   intros HS. destruct (do_reset_good _ _ _ _ _ _ HG Hb HS) as [_ [_ [_ [_ [D Ev]]]]]. split; assumption.
 Qed.
@@ -885,6 +957,37 @@ Proof.
   intros H _. inversion H; subst. left. destruct (close_dead _ _ _ E) as [D _]. exact D.
 Qed.
 
+Lemma step_race_dead c id ik c' evs :
+  step_race c id ik = (c', evs) -> c_bug c' = false ->
+  c_dead c' = c_dead c /\ (forall e, In e evs -> fst (fst e) = 2 \/ fst (fst e) = 3 \/ fst (fst e) = 6).
+Proof.
+  unfold step_race.
+  destruct (find_stream id (c_streams c)) as [st|].
+  2:{ intros H _. inversion H; subst. split; [reflexivity|]. intros e [<-|[]]. right; right; reflexivity. }
+  destruct (negb (s_run st)).
+  { intros H _. inversion H; subst. split; [reflexivity|]. intros e [<-|[]]. right; right; reflexivity. }
+  assert (Hin : forall c2, race_inner (upd c (set_run st false)) id ik = Some c2 -> c_dead c2 = c_dead c).
+  { intros c2. unfold race_inner. destruct (ik =? 3); [|intros H; inversion H; reflexivity].
+    destruct (find_live id _); [|intros H; inversion H; reflexivity].
+    intros H. apply close_dead in H. destruct H as [D _]. exact D. }
+  destruct (race_inner _ id ik) as [c2|] eqn:E2.
+  2:{ intros H Hb. inversion H; subst. simpl in Hb. discriminate. }
+  specialize (Hin _ eq_refl).
+  destruct (s_state st =? 3).
+  { intros H _. inversion H; subst. split; [exact Hin|]. intros e [<-|[]]. right; right; reflexivity. }
+  destruct (find_stream id (c_streams c2)) as [st2|].
+  2:{ intros H Hb. inversion H; subst. simpl in Hb. discriminate. }
+  destruct (s_state st2 =? 3).
+  { intros H _. inversion H; subst. split; [exact Hin|].
+    intros e [<-|[<-|[]]]; [right; left|right; right]; reflexivity. }
+  destruct (close_stream c2 st2) as [c3|] eqn:Ec.
+  2:{ intros H Hb. inversion H; subst. simpl in Hb. discriminate. }
+  intros H _. inversion H; subst. apply close_dead in Ec. destruct Ec as [D _].
+  split; [congruence|].
+  destruct (s_state st2 =? 1); simpl; intros e Hi;
+    repeat (destruct Hi as [<-|Hi]; [simpl; auto|]); contradiction.
+Qed.
+
 Theorem step_end c o c' evs :
   step c o = (c', evs) -> c_bug c' = false -> ends_ok c c' evs.
 Proof.
@@ -893,6 +996,7 @@ Proof.
   - unfold ends_ok; leaf. - unfold ends_ok; leaf.
   - apply step_read_end. - apply step_closebody_end. - apply step_finish_end.
   - unfold ends_ok, clean_end; leaf.
+  - intros H Hb. left. apply (step_race_dead _ _ _ _ _ H Hb).
 Qed.
 
 Definition evt_ok (e : evt) : Prop := fst (fst e) <> 5 \/ e = (5, 0, 0).
@@ -939,6 +1043,8 @@ Proof.
   - unfold step_closebody, evt_ok. crush; leaf2.
   - unfold step_finish, evt_ok. crush; leaf2.
   - unfold evt_ok; leaf2.
+  - intros H Hb e Hin. destruct (step_race_dead _ _ _ _ _ H Hb) as [_ K].
+    left. destruct (K e Hin) as [X|[X|X]]; rewrite X; discriminate.
 Qed.
 
 (* C35: one step from a good state: no panic; the connection stays as it was (alive) or the step's
@@ -1161,6 +1267,9 @@ Lemma step_headers_cur c id es kind clen c' evs :
   Cur c -> step_headers c id es kind clen = (c', evs) -> c_bug c' = false -> c_dead c' = false -> Cur c'.
 Proof.
   intros HC. unfold step_headers.
+  destruct (id =? 0).
+  { intros H _ Hd. inversion H; subst. simpl in Hd. discriminate. }
+  destruct (kind =? 7); [intros H Hb _; apply (do_reset_cur _ _ _ _ _ _ HC H Hb)|].
   destruct (negb (id mod 2 =? 1)).
   { intros H _ Hd. inversion H; subst. simpl in Hd. discriminate. }
   destruct (find_live id (c_streams c)) as [st|] eqn:Ef.
@@ -1183,10 +1292,35 @@ Proof.
     assert (E3 : ((if es then 2 else 1) =? 3) = false) by (destruct es; reflexivity).
     assert (HC1 : Cur c1).
     { unfold Cur, c1; simpl. unfold lv; simpl. rewrite E3. unfold Cur in HC. lia. }
-    destruct ((kind =? 1) || (kind =? 2) && negb es).
+    destruct (malformed kind es).
     + intros H Hb _. apply (do_reset_cur _ _ _ _ _ _ HC1 H Hb).
     + intros H _ _. inversion H; subst. unfold upd, set_streams, c1; simpl. rewrite Z.eqb_refl.
       unfold Cur; simpl. unfold lv; simpl. rewrite E3. unfold Cur in HC. lia.
+Qed.
+
+Lemma step_race_cur c id ik c' evs :
+  Cur c -> step_race c id ik = (c', evs) -> c_bug c' = false -> Cur c'.
+Proof.
+  intros HC. unfold step_race.
+  destruct (find_stream id (c_streams c)) as [st|] eqn:Ef; [|intros H _; inversion H; subst; exact HC].
+  pose proof (find_some _ _ _ Ef) as [_ Hid]. rewrite <- Hid in Ef.
+  destruct (negb (s_run st)); [intros H _; inversion H; subst; exact HC|].
+  assert (HC1 : Cur (upd c (set_run st false))).
+  { unfold upd, set_streams. apply (cur_set c st); [exact HC|exact Ef|unfold lv; simpl; lia]. }
+  destruct (race_inner _ id ik) as [c2|] eqn:E2; [|bugleaf].
+  assert (HC2 : Cur c2).
+  { unfold race_inner in E2. destruct (ik =? 3); [|inversion E2; subst; exact HC1].
+    destruct (find_live id _) as [s|] eqn:El; [|inversion E2; subst; exact HC1].
+    apply find_live_some in El. destruct El as [El _].
+    pose proof (find_some _ _ _ El) as [_ Hs]. rewrite <- Hs in El.
+    apply (cur_close _ _ _ HC1 El E2). }
+  destruct (s_state st =? 3); [intros H _; inversion H; subst; exact HC2|].
+  destruct (find_stream id (c_streams c2)) as [st2|] eqn:Ef2; [|bugleaf].
+  destruct (s_state st2 =? 3); [intros H _; inversion H; subst; exact HC2|].
+  destruct (close_stream c2 st2) as [c3|] eqn:Ec; [|bugleaf].
+  intros H _. inversion H; subst.
+  pose proof (find_some _ _ _ Ef2) as [_ Hid2]. rewrite <- Hid2 in Ef2.
+  apply (cur_close _ _ _ HC2 Ef2 Ec).
 Qed.
 
 Theorem step_cur c o c' evs :
@@ -1202,6 +1336,7 @@ Proof.
   - intros H _ _. apply (step_closebody_cur _ _ _ _ HC H).
   - intros H Hb _. apply (step_finish_cur _ _ _ _ HC H Hb).
   - intros H _ Hd. inversion H; subst. simpl in Hd. discriminate.
+  - intros H Hb _. apply (step_race_cur _ _ _ _ _ HC H Hb).
 Qed.
 
 Lemma run_ops_cur ops : forall c c' out,
